@@ -286,9 +286,9 @@ class Def:
             if st == "unit" or not fs:
                 lines.append("%s    %s%s,\n" % (pre, vn, d))
             elif st == "tuple":
-                lines.append("%s    %s(%s),\n" % (pre, vn, ", ".join(t.rust for _, t in fs)))
+                lines.append("%s    %s(%s)%s,\n" % (pre, vn, ", ".join(t.rust for _, t in fs), d))
             else:
-                lines.append("%s    %s { %s },\n" % (pre, vn, ", ".join("%s: %s" % (fn, t.rust) for fn, t in fs)))
+                lines.append("%s    %s { %s }%s,\n" % (pre, vn, ", ".join("%s: %s" % (fn, t.rust) for fn, t in fs), d))
         return "%s\n%senum %s {\n%s}\n" % (a, vis, self.name, "".join(lines))
 
     def manifest(self):
@@ -346,6 +346,12 @@ def build(tier):
            default=True)
     ec16 = D("ECl16", "enum", True, tag="u16", variants=[("A", "unit", [], False), ("B", "unit", [], True)], default=True)
     ec32 = D("ECl32", "enum", True, tag="u32", variants=[("Only", "unit", [], True)], default=True)
+    # explicit discriminants: field-less (u8 and a wide tag with a value >= 256) and data-carrying (sized / unsized further down)
+    ecd = D("EClD", "enum", True, variants=[("A", "unit", [], False), ("B", "unit", [], True), ("C", "unit", [], False)],
+            default=True, discrs=[1, 5, 9])
+    ecd16 = D("EClD16", "enum", True, tag="u16", variants=[("A", "unit", [], False), ("B", "unit", [], True)], default=True, discrs=[7, 0x0300])
+    esd = D("ESDisc", "enum", True, variants=[("A", "unit", [], True), ("B", "tuple", [(None, U8)], False),
+                                               ("C", "named", [("a", U16)], False)], default=True, discrs=[1, 5, 9])
     es = D("ESz", "enum", True, variants=[("A", "unit", [], True), ("B", "tuple", [(None, U16), (None, U8)], False),
                                             ("C", "named", [("a", U8), ("b", U16)], False), ("D", "tuple", [(None, U32)], False)],
            default=True)
@@ -420,6 +426,8 @@ def build(tier):
     ue_e = D("UEe", "enum", False, variants=[("A", "tuple", [(None, U8), (None, U32), (None, vec_u8_u8)], False),
                                                ("B", "tuple", [(None, us_a.t)], False),
                                                ("C", "tuple", [(None, es.t), (None, flex_str_u8)], False)], vis="pub")
+    ue_disc = D("UEDisc", "enum", False, variants=[("A", "unit", [], True), ("B", "tuple", [(None, U8), (None, vec_u8_u8)], False),
+                                                     ("C", "unit", [], False)], default=True, discrs=[3, 9, 4])
     ue_s = D("UESz", "enum", False, variants=[("A", "unit", [], True), ("B", "tuple", [(None, U8), (None, U16)], False),
                                                 ("C", "named", [("a", U8), ("b", U16), ("c", array(U8, 4))], False)], default=True)
     ue_p = D("UEPort", "enum", False, variants=[("A", "unit", [], True), ("B", "tuple", [(None, BE_F32), (None, sp.t)], False),
